@@ -75,6 +75,14 @@ def _func(cls, name):
     raise ValueError(f"{cls.name}.{name} not found")
 
 
+def _lean_lit(s):
+    return '"' + s.replace("\\", "\\\\").replace('"', '\\"').replace("\n", "\\n") + '"'
+
+
+def _nf_ident(k):
+    return "nf_" + k.replace(".", "_").replace("__", "")
+
+
 def _lean_str_list(xs):
     return "[" + ", ".join('"%s"' % x for x in xs) + "]"
 
@@ -105,15 +113,47 @@ def gen_lean():
         raise ValueError("Location.Strand members not found")
     # --- reverse_complement: `if loc.defect & Location.Defect.X: rev_loc_defect |= Location.Defect.Y`
     aseq = _class(ann, "AnnotatedSequence")
-    mirror = []
-    for n in ast.walk(_func(aseq, "reverse_complement")):
-        if isinstance(n, ast.If) and isinstance(n.test, ast.BinOp) and isinstance(n.test.op, ast.BitAnd) \
-                and isinstance(n.test.right, ast.Attribute) and len(n.body) == 1 \
-                and isinstance(n.body[0], ast.AugAssign) and isinstance(n.body[0].op, ast.BitOr) \
-                and isinstance(n.body[0].value, ast.Attribute):
-            mirror.append((n.test.right.attr, n.body[0].value.attr))
+    # --- structural normal forms of the anchored functions (c13_norm.py): every literal, operator, operand order, step order,
+    #     exception class and public name stays significant; local names, private helper names, messages, annotations,
+    #     if/else vs conditional expression, guard clause vs nested if do not
+    from props import c13_norm
+    feat_cls, annot_cls = _class(ann, "Feature"), _class(ann, "Annotation")
+    seqmod = ast.parse(_src("sequence/sequence.py"))
+    typmod = ast.parse(_src("sequence/seqtypes.py"))
+    seq_cls, nuc_cls = _class(seqmod, "Sequence"), _class(typmod, "NucleotideSequence")
+    wanted = [("Location", loc, ann, ["__init__", "__eq__", "__hash__"]),
+              ("Feature", feat_cls, ann, ["__init__", "__copy_create__", "__eq__", "__hash__", "get_location_range"]),
+              ("Annotation", annot_cls, ann, ["__init__", "__copy_create__", "add_feature", "del_feature", "__add__", "__iadd__", "__getitem__",
+                                              "__delitem__", "__iter__", "__contains__", "__eq__", "__len__"]),
+              ("AnnotatedSequence", aseq, ann, ["__init__", "__copy_create__", "reverse_complement", "__getitem__", "__setitem__", "__eq__"]),
+              ("Sequence", seq_cls, seqmod, ["copy", "reverse", "__getitem__", "__len__", "__eq__", "__add__"]),
+              ("NucleotideSequence", nuc_cls, typmod, ["__copy_create__", "complement"])]
+    nf, mirror, defaults = [], [], []
+    for cname, cls, mod, names in wanted:
+        for fname in names:
+            try:
+                lines, mir = c13_norm.normal_form(_func(cls, fname), cls, mod)
+            except ValueError as e:
+                raise ValueError(f"{cname}.{fname}: {e}")
+            nf.append((f"{cname}.{fname}", lines))
+            if cname == "AnnotatedSequence" and fname == "reverse_complement":
+                mirror = mir
+        for fn in cls.body:
+            if isinstance(fn, ast.FunctionDef) and (not fn.name.startswith("_") or fn.name == "__init__"):
+                defaults += [(f"{cname}.{fn.name}", p, d) for p, d in c13_norm.defaults(fn)]
     if not mirror:
-        raise ValueError("flag rewiring of reverse_complement not found")
+        raise ValueError("flag rewiring of reverse_complement not found (neither an `if d & F: m |= G` chain nor a table-driven helper)")
+    # --- Annotation.get_location_range: the sentinels and the exclusive stop, whatever the way the extremes are computed
+    glr = _func(annot_cls, "get_location_range")
+    sent = sorted({ast.unparse(n) for n in ast.walk(glr)
+                   if (isinstance(n, ast.Attribute) and ast.unparse(n) == "sys.maxsize")
+                   or (isinstance(n, ast.UnaryOp) and isinstance(n.op, ast.USub) and ast.unparse(n.operand) == "sys.maxsize")})
+    rets = [n for n in ast.walk(glr) if isinstance(n, ast.Return)]
+    if len(rets) != 1 or not isinstance(rets[0].value, ast.Tuple) or len(rets[0].value.elts) != 2:
+        raise ValueError("Annotation.get_location_range: expected a single `return first, last + 1`")
+    second = rets[0].value.elts[1]
+    plus = ast.unparse(second.right) if isinstance(second, ast.BinOp) and isinstance(second.op, ast.Add) else "?"
+    range_facts = sent + ["stop = last + " + plus]
     # --- copy path: fields assigned in __init__ vs. constructor arguments of __copy_create__
     init_fields = []
     for n in ast.walk(_func(aseq, "__init__")):
@@ -236,6 +276,13 @@ def gen_lean():
         "def strands : List String := " + _lean_str_list(strands),
         "/-- `reverse_complement`: (flag tested on the location, flag set on the reversed location). -/",
         "def mirrorPairs : List (String × String) := [" + ", ".join(f'("{a}", "{b}")' for a, b in mirror) + "]",
+        "/-- Structural normal form (harness/props/c13_norm.py) of every anchored function: (Class.function, steps). -/",
+        "def nfNames : List String := " + _lean_str_list([k for k, _ in nf]),
+        *["def %s : List String := [%s]" % (_nf_ident(k), ", ".join(_lean_lit(l) for l in ls)) for k, ls in nf],
+        "/-- Default values of the public signatures: (Class.function, parameter, default). -/",
+        "def defaults : List (String × String × String) := [" + ", ".join(f'("{a}", "{b}", {_lean_lit(c)})' for a, b, c in defaults) + "]",
+        "/-- `Annotation.get_location_range`: sentinels and the exclusive stop. -/",
+        "def rangeFacts : List String := [" + ", ".join(_lean_lit(x) for x in range_facts) + "]",
         "/-- Attributes assigned in `AnnotatedSequence.__init__`. -/",
         "def initFields : List String := " + _lean_str_list([f for f, _ in init_fields]),
         "/-- `__copy_create__`: (field the constructor argument is stored in, attribute of `self` it is built from, how). -/",
@@ -1523,7 +1570,7 @@ def cases(rng, tier):
             c = gens[kind](rng)
             c["spell"] = rng.randrange(4620)       # how the same arguments are spelled on the implementation side
             yield c
-    for i, c in enumerate(_exhaustive(4 if quick else 6)):
+    for i, c in enumerate(_exhaustive(3 if quick else 6)):
         c["spell"] = (i * 7) % 4620
         yield c
 
@@ -1608,3 +1655,21 @@ def shrink(case, key):
             return False
     ops = util.shrink_list(case["ops"][1:], fails, max_steps=60)
     return dict(case, ops=[case["ops"][0]] + ops)
+
+
+def write_expected():
+    """Maintenance helper (run by hand after REVIEWING a deliberate change of the anchored source):
+    `cd harness && /venv/bin/python -c "from props import c13; c13.write_expected()"` rewrites the reviewed snapshot
+    lean/BiotiteModel/Proofs/C13Expected.lean from the current source.  Never called by the check."""
+    from common import paths
+    import re
+    g = gen_lean()["BiotiteModel/Gen/C13.lean"]
+    keep = []
+    for m in re.finditer(r"^def (nf\w*|defaults|rangeFacts) : .*?(?=^/--|^def |^end )", g, re.S | re.M):
+        keep.append(m.group(0).rstrip())
+    body = ["/-! Reviewed snapshot of the structural normal forms of the anchored functions (see `harness/props/c13_norm.py`).",
+            "The hand-written model `Model/C13.lean` was written against exactly these steps; `Props/C13.lean` proves that what is",
+            "regenerated from the source on every run equals them.  Rewritten only by `c13.write_expected()` after review. -/",
+            "namespace BiotiteModel.C13.Expected"] + keep + ["end BiotiteModel.C13.Expected", ""]
+    with open(os.path.join(paths.LEAN, "BiotiteModel/Proofs/C13Expected.lean"), "w") as f:
+        f.write("\n".join(body))
